@@ -271,7 +271,10 @@ impl Font {
     }
     pub fn widths(&self, resolve: &impl Resolve) -> Result<Option<Widths>> {
         match self.data {
-            FontData::Type0(ref t0) => t0.descendant_fonts[0].widths(resolve),
+            FontData::Type0(ref t0) => match t0.descendant_fonts.get(0) {
+                Some(font) => font.widths(resolve),
+                None => Ok(None)
+            },
             FontData::Type1(ref info) | FontData::TrueType(ref info) => {
                 match *info {
                     TFont { first_char: Some(first), ref widths, .. } => Ok(Some(Widths {
@@ -285,11 +288,19 @@ impl Font {
             FontData::CIDFontType0(ref cid) | FontData::CIDFontType2(ref cid) => {
                 let mut widths = Widths::new(cid.default_width);
                 let mut iter = cid.widths.iter();
+                // character codes of a CID font are at most two bytes long
+                const MAX_CID: usize = 0xffff;
                 while let Some(p) = iter.next() {
                     let c1 = p.as_usize()?;
+                    if c1 > MAX_CID {
+                        bail!("CID {} in W array out of range", c1);
+                    }
                     match iter.next() {
                         Some(Primitive::Array(array)) => {
-                            widths.ensure_cid(c1 + array.len() - 1);
+                            if c1 + array.len() > MAX_CID + 1 {
+                                bail!("CID range {}+{} in W array out of range", c1, array.len());
+                            }
+                            widths.ensure_cid((c1 + array.len()).saturating_sub(1));
                             for (i, w) in array.iter().enumerate() {
                                 widths.set(c1 + i, w.as_number()?);
                             }
@@ -297,7 +308,10 @@ impl Font {
                         Some(&Primitive::Reference(r)) => {
                             match resolve.resolve(r)? {
                                 Primitive::Array(array) => {
-                                    widths.ensure_cid(c1 + array.len() - 1);
+                                    if c1 + array.len() > MAX_CID + 1 {
+                                        bail!("CID range {}+{} in W array out of range", c1, array.len());
+                                    }
+                                    widths.ensure_cid((c1 + array.len()).saturating_sub(1));
                                     for (i, w) in array.iter().enumerate() {
                                         widths.set(c1 + i, w.as_number()?);
                                     }
@@ -307,6 +321,9 @@ impl Font {
                         }
                         Some(&Primitive::Integer(c2)) => {
                             let w = try_opt!(iter.next()).as_number()?;
+                            if c2 < 0 || c2 as usize > MAX_CID {
+                                bail!("CID {} in W array out of range", c2);
+                            }
                             for c in c1 ..= (c2 as usize) {
                                 widths.set(c, w);
                             }
